@@ -35,6 +35,8 @@ func (env *Env) inState(st *State) *Env {
 	return &Env{e: env.e, vars: env.vars, state: st, old: env.old, now0: env.now0}
 }
 
+var usePatternInference = false
+
 type evalError struct{ msg string }
 
 func (e *evalError) Error() string { return e.msg }
@@ -154,7 +156,21 @@ func (env *Env) eval(x Expr) TV {
 		if !n.Forall {
 			q = "exists"
 		}
-		return TV{T: mk(SBool, fmt.Sprintf("(%s (%s) %s)", q, strings.Join(binds, " "), body.S))}
+		bs := body.S
+		if n.Forall && usePatternInference {
+			var vnames []string
+			for _, b := range binds {
+				vnames = append(vnames, strings.Fields(strings.Trim(b, "()"))[0])
+			}
+			if pats := inferPatterns(bs, vnames); len(pats) > 0 {
+				var ps []string
+				for _, p := range pats {
+					ps = append(ps, ":pattern ("+p+")")
+				}
+				bs = "(! " + bs + " " + strings.Join(ps, " ") + ")"
+			}
+		}
+		return TV{T: mk(SBool, fmt.Sprintf("(%s (%s) %s)", q, strings.Join(binds, " "), bs))}
 	}
 	evalFail("cannot evaluate %T", x)
 	return TV{}
